@@ -101,6 +101,17 @@ pub fn run_child(spec: &Spec) -> ChildResult {
             v.probes.insert("memory_limit_kill".into(), 1);
             ChildResult::Verdict(Box::new(v))
         }
+        Some(78) if spec.params.get("c15_expect").and_then(|v| v.as_str()).map(|e| e != "accept").unwrap_or(false) => {
+            // C15: the configuration was refused at startup, which is the expected (or an allowed) answer
+            let kind = spec.params.get("c15_kind").and_then(|v| v.as_str()).unwrap_or("").to_string();
+            let mut v = Verdict::default();
+            v.digest = format!("rejected-{}", kind);
+            v.signature = v.digest.clone();
+            v.summary = "configuration rejected at startup".into();
+            v.probes.insert("c15_config_rejected".into(), 1);
+            v.probes.insert(format!("c15_rejected_{}", kind), 1);
+            ChildResult::Verdict(Box::new(v))
+        }
         Some(78) => ChildResult::ConfigRejected,
         Some(c) => ChildResult::HarnessError(format!("child exited with code {} and no verdict", c)),
         None => ChildResult::HarnessError(format!("child killed by signal ({:?}) and no verdict", out.status)),
@@ -132,12 +143,29 @@ pub fn load_known(root: &Path) -> Vec<KnownFinding> {
     }
 }
 
+/// `*` in a pattern stands for any run of characters.
 fn fp_matches(pattern: &str, fp: &str) -> bool {
-    if let Some(prefix) = pattern.strip_suffix('*') {
-        fp.starts_with(prefix)
-    } else {
-        pattern == fp
+    let parts: Vec<&str> = pattern.split('*').collect();
+    if parts.len() == 1 {
+        return pattern == fp;
     }
+    let mut rest = fp;
+    for (i, part) in parts.iter().enumerate() {
+        if i == 0 {
+            match rest.strip_prefix(part) {
+                Some(r) => rest = r,
+                None => return false,
+            }
+        } else if i + 1 == parts.len() {
+            return rest.ends_with(part);
+        } else {
+            match rest.find(part) {
+                Some(pos) => rest = &rest[pos + part.len()..],
+                None => return false,
+            }
+        }
+    }
+    true
 }
 
 pub fn known_open<'a>(known: &'a [KnownFinding], v: &Violation) -> Option<&'a KnownFinding> {
@@ -179,6 +207,7 @@ pub fn required_probes(property: &str) -> Vec<&'static str> {
         "C05" => vec!["c05_statement_checked", "c05_decided_plain_read_replica", "c05_decided_write_primary", "c05_decided_ddl_primary", "c05_decided_utility_primary", "c05_decided_dm_cte_primary", "c05_decided_lock_primary", "c05_decided_select_into_primary", "c05_decided_txn_start_primary", "c05_decided_multi_with_write_primary", "c05_set_server_role_primary", "c05_set_server_role_replica", "c05_set_server_role_auto"],
         "C19" => vec!["c19_listed_statement_checked", "c19_intercept_checked", "c19_control_plugins_disabled", "c19_where_simple", "c19_where_multi_statement", "c19_where_extended", "c19_where_batch_first", "c19_where_batch_last", "c19_where_in_transaction_simple", "c19_where_in_transaction_extended", "c19_where_named_parse_then_later_bind", "c19_spelling_upper", "c19_spelling_quoted", "c19_spelling_qualified"],
         "C20" => vec!["relay_compared_steps", "c20_latency_checked", "c20_mirror_connection", "c20_mirror_unit_checked"],
+        "C15" => vec!["c15_config_rejected", "c15_config_accepted", "c15_probe_checked", "c15_default_shard_probe_checked", "c15_admin_step_checked", "c15_accepted_valid", "c15_rejected_two_primaries", "c15_rejected_duplicate_server", "c15_rejected_default_shard_beyond_range", "c15_rejected_shard_id_not_numeric"],
         "C16" => vec!["c16_pause_interval", "c16_txn_sent_while_paused", "c16_client_held_then_released", "yield:pool.wait_paused.between"],
         "C08" => vec!["c08_execute_checked", "c08_execute_on_reused_connection", "c08_eviction_close_sent", "c08_reference_compared_steps"],
         _ => vec![],
@@ -462,6 +491,7 @@ fn rule_of(property: &str) -> String {
         "C05" => "1-3 clients over one shard with a primary and 1-2 replicas, read/write splitting on, parser on in most runs, all default_role and primary_reads_enabled values; per client 5-26 steps: statements of 10 classes known by construction (plain reads incl. CTE/UNION/VALUES/subqueries, INSERT/UPDATE/DELETE/MERGE/TRUNCATE, DDL, utility statements, data-modifying CTEs, SELECT FOR UPDATE/SHARE also nested, SELECT INTO, multi-statement mixes) in simple and anonymous extended protocol, explicit transactions with 1-3 statements, SET SERVER ROLE and SET PRIMARY READS in between; acceptance by the pooler's parser decided with the same sqlparser version; every fourth run all replicas or the primary are unreachable",
         "C19" => "1-2 clients, table_access with two listed tables, one intercept rule, query logger on/off, configured globally or per pool, statement cache on/off; statements mentioning a listed or unlisted relation in 12 positions (FROM, JOIN, subqueries, CTE, INSERT/UPDATE/DELETE target, USING, INSERT..SELECT, EXISTS, UPDATE..FROM) and 7 spellings (case, quotes, schema), sent alone, in multi-statement messages, in Parse..Sync batches with several Parses, inside transactions (simple and extended), and as a named Parse executed by a later Bind; the intercepted query in four spellings; every fourth run with plugins disabled",
         "C20" => "1-3 clients without pool contention over a primary (and optional replica) with 0-3 mirrors attached to either; simple, extended and transactional requests with known server-side durations; per-mirror fault scripts: down from the start, refuse + connection kills (fin/rst) with or without recovery, connect hang, black hole after accept, slow replies (50-2000 ms), startup rejected, every statement answered with an error, connection kills at PRNG times; a quarter of the runs without mirrors (control), a quarter with healthy mirrors; calm network in 70% of the runs (latency oracle), swarm otherwise",
+        "C15" => "a base configuration (1-3 shards, primary and optional replica, 1-2 users) with at most one of 34 deviations: shard ids starting at 1, with a gap, non-numeric, huge, negative, with leading zero; two primaries, no primary, duplicate server, the same server in two shards, no servers; default_shard beyond range / last / random / random_healthy / bogus; default_role bogus or replica without replicas; user without password, incomplete auth_query, duplicate user names; min_pool_size above pool_size, pool_size 0; invalid regexes; plugins or read/write splitting without parser; mirror of an absent server; bogus sharding function and pool mode; unqualified automatic sharding key. Booted through the real main; when accepted, one probe client per (user, shard id written in the file, role), one for the default shard, and an admin client reading six SHOW commands",
         "C16" => "PAUSE/RESUME cycles (global or per pool) by an admin client; workers running throughout, clients that are idle when the pause begins, clients arriving after the PAUSE acknowledgement, mid-transaction clients; both pool modes; random subset of the yield sites inside wait_paused and between wait_paused and checkout; RESUME at PRNG times including right after a held client's message went out",
         "C12" => "2-5 clients sharing 1-2 server connections; startup parameter sets and SET sequences of tracked and untracked parameters; every fourth run uses hostile values (quotes, backslashes, non-ASCII, empty)",
         _ => "see DESIGN.md",
